@@ -107,10 +107,15 @@ AllShapes(k, Places) == UNION {DefFamily(k, sh, Places) : sh \in ShapesOf(k)}
 Full(S) == {I \in S : I.mods = Mods}
 Merge(A, B) == [A EXCEPT !.fam = "combo", !.shape = A.shape \o "&" \o B.shape, !.imp = A.imp \cup B.imp, !.defs = A.defs \cup B.defs,
                          !.roots = A.roots \cup B.roots, !.augs = A.augs \cup B.augs, !.devs = A.devs \cup B.devs, !.off = A.off \cup B.off]
+\* (most instances of the families are erroneous: every component is drawn from the valid ones with
+\* probability 3/4, so that a good share of the combinations compiles)
 Combos(n, Places) ==
   LET G == Full(AllShapes("grouping", Places) \cup AugDevFamily)  T == Full(AllShapes("typedef", Places))
       D == Full(AllShapes("identity", Places))  F == Full(AllShapes("feature", Places))
-  IN {Merge(Merge(RandomElement(G), RandomElement(T)), Merge(RandomElement(D), RandomElement(F))) : i \in 1..n}
+      Ok(X) == {I \in X : Verdict(I) = "ok"}
+      Gk == Ok(G)  Tk == Ok(T)  Dk == Ok(D)  Fk == Ok(F)
+      Draw(X, Xk) == IF RandomElement(1..4) > 1 THEN RandomElement(Xk) ELSE RandomElement(X)
+  IN {Merge(Merge(Draw(G, Gk), Draw(T, Tk)), Merge(Draw(D, Dk), Draw(F, Fk))) : i \in 1..n}
 
 \* ---- chunks: <<family, shape, size>>, size "s" = two modules only (quick), "l" = three
 AllPlaces(sz) == IF sz = "s" THEN {"m1", "m2"} ELSE Mods
